@@ -1,6 +1,11 @@
-(* C19 — arrays rebuilt from elements answer like an index of the same documents (theorems are added as they close).
-   Model: Rebuild/Rebuild.v (after the repairs of D12). *)
-From SA Require Import Base.Prelude Index.Index Index.Index_Spec Query.Phrase Query.Phrase_Spec View.View View.View_Spec View.View_Proofs Rebuild.Rebuild Rebuild.Rebuild_Proofs Rebuild.Rebuild_Proofs2.
+(* C19 — arrays rebuilt from elements answer like an index of the same documents.  Statement-only file.
+   Proved: (1) answers_like — every term-frequency, document-frequency, length, position query and every phrase without
+   an immediately repeated term answers as the spec on the new documents; (2) LITERAL equality with the fresh index of
+   the new documents (any batch size) for EVERY term list as a phrase (immediate repetitions included, any position
+   range), for the statistics a similarity receives and for the BM25 scores; (3) the C03 bounds / exact counts for
+   phrases with repeated terms against the new documents; (4) the same for take with fill.
+   Model: Rebuild/Rebuild.v (after the repairs of D12).  Proofs: Rebuild/Rebuild_Proofs{,2,3}.v. *)
+From SA Require Import Base.Prelude Index.Index Index.Index_Spec Query.Phrase Query.Phrase_Spec Query.Phrase_Repeats Query.Range Score.Score View.View View.View_Spec View.View_Proofs View.View_Phrase3 Rebuild.Rebuild Rebuild.Rebuild_Proofs Rebuild.Rebuild_Proofs2 Rebuild.Rebuild_Proofs3.
 Open Scope N_scope.
 (* answers_like docs' ix: every term-frequency, document-frequency, length, position and phrase query on ix answers
    as the spec on docs' (a fresh index of docs' does, by C01/C02/C03/C05).
@@ -20,6 +25,65 @@ Theorem C19_take_with_fill : forall docs bs ix avoid keys v idx els,
   answers_like (taken_docs (view_docs docs keys) idx) (rebuild els).
 Proof. exact take_fill_answers. Qed.
 Print Assumptions C19_take_with_fill.
+
+(* ================= literal equality with the fresh index of the new documents (Rebuild/Rebuild_Proofs3.v) =================
+   ix' is the index built from scratch over the new documents (any batch size bs; it always exists:
+   Rebuild_Proofs3.rebuild_fresh_exists).  The rebuilt record is NOT ix' (dictionary and posting table are in another
+   order: Rebuild_Proofs3.rb3_run), but every query reads only  lookup / known / lengths,  on which the two agree. *)
+
+(* EVERY term list as a phrase — immediate repetitions ('a a b', 'a a a'), unknown terms, fewer than two terms (the same
+   error) — and every position range; on the index and on the unsliced array (the entry C06 uses) *)
+Theorem C19_rebuilt_phrases_like_fresh_index : forall srcs refs els bs ix',
+  Forall source_ok srcs -> Forall2 (ref_el srcs) refs els -> N.of_nat (length refs) < 2 ^ 28 ->
+  index false bs (map (ref_doc srcs) refs) = AOk ix' ->
+  (forall ph, phrase_freqs (rebuild els) ph = phrase_freqs ix' ph) /\
+  (forall ph lo hi, phrase_freqs_range (rebuild els) ph lo hi = phrase_freqs_range ix' ph lo hi) /\
+  (forall avoid ph lo hi,
+     v_phrase_freqs (of_index (rebuild els) avoid) ph lo hi = v_phrase_freqs (of_index ix' avoid) ph lo hi).
+Proof. exact rebuild_phrases_like_fresh. Qed.
+Print Assumptions C19_rebuilt_phrases_like_fresh_index.
+
+(* the statistics a similarity receives (tf vector of a term or a phrase, document frequencies, lengths, total, N) and the
+   BM25 scores (idf, k1, b given as binary64 bit patterns; scores as binary32 bit patterns), for every term list *)
+Theorem C19_rebuilt_scores_like_fresh_index : forall srcs refs els bs ix',
+  Forall source_ok srcs -> Forall2 (ref_el srcs) refs els -> N.of_nat (length refs) < 2 ^ 28 ->
+  index false bs (map (ref_doc srcs) refs) = AOk ix' ->
+  (forall ts, score_args (rebuild els) ts = score_args ix' ts) /\
+  (forall ts idf k1 b, score_bm25 (rebuild els) ts idf k1 b = score_bm25 ix' ts idf k1 b) /\
+  (forall avoid ts lo hi,
+     v_score_args (of_index (rebuild els) avoid) ts lo hi = v_score_args (of_index ix' avoid) ts lo hi) /\
+  (forall avoid ts idf k1 b,
+     v_score_bm25 (of_index (rebuild els) avoid) ts idf k1 b = v_score_bm25 (of_index ix' avoid) ts idf k1 b).
+Proof. exact rebuild_scores_like_fresh. Qed.
+Print Assumptions C19_rebuilt_scores_like_fresh_index.
+
+(* every query of the model at once (same_answers: Rebuild_Proofs3.v, fifteen equalities) *)
+Theorem C19_rebuilt_every_query_like_fresh_index : forall srcs refs els bs ix',
+  Forall source_ok srcs -> Forall2 (ref_el srcs) refs els -> N.of_nat (length refs) < 2 ^ 28 ->
+  index false bs (map (ref_doc srcs) refs) = AOk ix' -> same_answers (rebuild els) ix'.
+Proof. exact rebuild_same_answers. Qed.
+Print Assumptions C19_rebuilt_every_query_like_fresh_index.
+
+(* against the new documents themselves: every phrase of two or more terms is positive exactly on the rows whose document
+   contains it, between the non-overlapping and the overlapping count; exact when two different terms are mentioned *)
+Theorem C19_rebuilt_phrase_counts : forall srcs refs els,
+  Forall source_ok srcs -> Forall2 (ref_el srcs) refs els -> N.of_nat (length refs) < 2 ^ 28 ->
+  forall ph, (2 <= length ph)%nat ->
+  (exists res, phrase_freqs (rebuild els) ph = AOk res /\ length res = length refs /\
+     forall d, (d < length refs)%nat ->
+       (nth d res 0 > 0 <-> occ ph (nth d (map (ref_doc srcs) refs) []) > 0) /\
+       nonoverlapping ph (nth d (map (ref_doc srcs) refs) []) <= nth d res 0 <= occ ph (nth d (map (ref_doc srcs) refs) [])) /\
+  (is_const ph = false -> phrase_freqs (rebuild els) ph = AOk (phrase_spec (map (ref_doc srcs) refs) ph)).
+Proof. exact rebuild_phrase_counts. Qed.
+Print Assumptions C19_rebuilt_phrase_counts.
+
+Theorem C19_take_with_fill_every_query_like_fresh_index : forall docs bs ix avoid keys v idx els bs' ix',
+  wf_docs docs -> index false bs docs = AOk ix -> valid_keys (length docs) keys ->
+  select_chain (of_index ix avoid) keys = AOk v -> take_fill_elements v idx = AOk els ->
+  N.of_nat (length idx) < 2 ^ 28 ->
+  index false bs' (taken_docs (view_docs docs keys) idx) = AOk ix' -> same_answers (rebuild els) ix'.
+Proof. exact take_fill_same_answers. Qed.
+Print Assumptions C19_take_with_fill_every_query_like_fresh_index.
 
 Example C19_rebuilt_view_answers_like_fresh_index :
   let docs := [[1;2;1;3];[];[2];[1;1;2];[3;1]] in
